@@ -235,8 +235,6 @@ where
     /// A transaction becomes final only while it is `Unconfirmed` and its validation timestamp is
     /// newer than every validation rewind affecting this prefix. Finality never skips an index.
     fn run_finality_loop(&self) {
-        #[cfg(feature = "verif-hooks")]
-        let _verif_thread = crate::verif::rt::enroll(1);
         self.finality_wait.register_current_thread();
         let mut last_progress = Instant::now();
         let mut finality_idx = 0;
@@ -333,8 +331,6 @@ where
     /// exclusive prefix. `OrderedCommitter::commit` applies state, beneficiary rewards, and the
     /// outcome before this loop publishes that prefix.
     fn run_commit_loop(&self, committer: &mut OrderedCommitter<DB>) -> CommitLoopResult<DB::Error> {
-        #[cfg(feature = "verif-hooks")]
-        let _verif_thread = crate::verif::rt::enroll(2);
         self.commit_wait.register_current_thread();
         let mut output = OrderedCommitOutput::with_capacity(self.block_size);
         let mut commit_idx = 0;
@@ -461,20 +457,26 @@ where
                 // them. Each child has the same guard for panics in its scheduler role.
                 let _scope_cancel = self.cancel_on_panic();
                 let finality_thread = scope.spawn(|| {
+                    // Enrolled before the cancel guard so that the guard's notifications (which run
+                    // while unwinding) still reach an installed controller.
+                    #[cfg(feature = "verif-hooks")]
+                    let _verif_thread = crate::verif::rt::enroll(1);
                     let _cancel = self.cancel_on_panic();
                     self.run_finality_loop();
                     self.metrics.record_execution_time(start_time.elapsed());
                 });
                 let commit_thread = scope.spawn(|| {
+                    #[cfg(feature = "verif-hooks")]
+                    let _verif_thread = crate::verif::rt::enroll(2);
                     let _cancel = self.cancel_on_panic();
                     self.run_commit_loop(&mut committer)
                 });
                 let mut workers = Vec::with_capacity(concurrency_level);
                 for _ in 0..concurrency_level {
                     workers.push(scope.spawn(|| {
-                        let _cancel = self.cancel_on_panic();
                         #[cfg(feature = "verif-hooks")]
                         let _verif_thread = crate::verif::rt::enroll(0);
+                        let _cancel = self.cancel_on_panic();
                         let incarnation_db =
                             IncarnationDb::new(&state_view, &self.mv_memory, &beneficiary);
                         let mut cfg = self.cfg.clone();
